@@ -292,6 +292,25 @@ func chanName(v ssa.Value) string {
 			return sc.Name() + "()"
 		}
 	case *ssa.Parameter:
+		// a channel handed in at the single call/go site of a function is named after what is
+		// passed there (so renaming the parameter does not change its identity)
+		if fn := x.Parent(); fn != nil && curProg != nil {
+			sites := curProg.CallSitesOf(fn)
+			if len(sites) == 1 {
+				idx := -1
+				for i, p := range fn.Params {
+					if p == x {
+						idx = i
+					}
+				}
+				args := sites[0].Instr.Common().Args
+				if idx >= 0 && idx < len(args) {
+					if f, _ := loadedField(args[idx]); f != nil {
+						return "param:" + f.Name()
+					}
+				}
+			}
+		}
 		return "param:" + x.Name()
 	case *ssa.FreeVar:
 		return "free:" + x.Name()
